@@ -260,6 +260,23 @@ def initialreads_contained():
     return 'bool', 'false'
 
 
+def startup_single_pass():
+    """the start-up phase is ONE pass: `while True:` whose body is try (ending in break) / except
+    CommunicationFailedError, then self.triggerPoll.wait(..), then break"""
+    ws = [n for n in _thread().body if isinstance(n, ast.While) and isinstance(n.test, ast.Constant) and n.test.value is True]
+    if len(ws) != 1:
+        raise Shape('expected exactly one top-level `while True:` start-up loop')
+    b = ws[0].body
+    ok = (len(b) == 3 and isinstance(b[0], ast.Try) and isinstance(b[0].body[-1], ast.Break)
+          and len(b[0].handlers) == 1 and b[0].handlers[0].type is not None
+          and _norm(b[0].handlers[0].type) == 'CommunicationFailedError'
+          and not walk_type(ast.Module(body=b[0].handlers[0].body, type_ignores=[]), ast.Continue)
+          and isinstance(b[1], ast.Expr) and isinstance(b[1].value, ast.Call)
+          and _norm(b[1].value.func) == 'self.triggerPoll.wait'
+          and isinstance(b[2], ast.Break) and not ws[0].orelse)
+    return 'bool', cbool(ok)
+
+
 def trigger_rule():
     """PollInfo.trigger / update_interval and Module.setFastPoll shapes"""
     pi = _pollinfo()
@@ -276,7 +293,7 @@ def trigger_rule():
 FACTS = [max_wait_ticks, startup_wait_ticks, poll_default_read, poll_without_read_func, nopoll_value,
          poll_default_handler, poll_common_rest, thread_collects_only_polled, callpoll_contains_exceptions,
          callpoll_reraise_guarded, mainloop_never_reraises, main_due_rule, wait_rule, slow_fresh_twice,
-         refill_rule, trigger_rule, initialreads_contained]
+         refill_rule, trigger_rule, initialreads_contained, startup_single_pass]
 
 FINGERPRINTS = {
     'Module.__pollThread': _thread,
